@@ -2,7 +2,7 @@ import MaddyVerif.Model.CheckRunner
 import Driver.Util
 /-! Line protocol of C06 (see harness/internal/msgpipeline/zz_verif_c06_test.go):
 
-`run <mode> <dmarc> <global> <source> <blocks> <targets> <rcpts> <scripts> <delays>`
+`run <mode> <dmarc> <global> <source> <blocks> <targets> <rcpts> <scripts> <delays> [Q]`
   mode     smtp | lmtp
   dmarc    off | pass | quar | rej
   global   check ids `0.2` or `-`;  source likewise
@@ -12,6 +12,15 @@ import Driver.Util
   scripts  `;`-separated per check `<conn><sender><body>/<id>:<v>,…|-`, a verdict `<v>` is two
            characters: raw result 0-5 and action i|q|r (FailAction applied to the raw result)
   delays   `;`-separated per check, four digits (conn, sender, rcpt, body): completion order
+  Q        `MsgMetadata.Quarantine` is already set when `Start` is called (`Cfg.q0`)
+`nest <mode> <dmarc> <global> <source> <blocks> <targets> <rcpts> <scripts> <delays> <Q|->
+      // <dmarc> <global> <source> <blocks> <targets> <routes> <scripts> <delays>`
+  a pipeline (after `//`) used as a delivery target of the first one: target kind `px` in the outer
+  target list; `routes` = `<id>:<inner block>` for every recipient id.  The inner pipeline is the
+  same model run on the recipients the outer pipeline hands over, with `q0` = the flag the outer
+  pipeline leaves (`deliver_to &inner`).  Supported (otherwise `bad-op`): the outer pipeline's own
+  targets do not refuse (kind `n`), no inner verdict is a reject, inner DMARC is not `rej` — so the
+  inner pipeline never refuses MAIL/RCPT and only its targets can refuse the body.
 `apply <raw> <act>` → the result of FailAction.Apply and what the runner does with it
 -/
 namespace Driver.C06
@@ -93,6 +102,15 @@ def parseTgt (s : String) : Option Tgt :=
     if (a == 'a' || a == 'p') && (b == 'n' || b == 'r') then some ⟨a == 'p', b == 'r'⟩ else none
   | _ => none
 
+/-- Target list of a `nest` op: `px` is the nested pipeline (a `PartialDelivery` that accepts
+every recipient), the outer pipeline's own targets must be of kind `n`. -/
+def parseTgtN (s : String) : Option (Tgt × Bool) :=
+  match s.toList with
+  | [a, b] =>
+    if a == 'p' && b == 'x' then some (⟨true, false⟩, true)
+    else if (a == 'a' || a == 'p') && b == 'n' then some (⟨a == 'p', false⟩, false) else none
+  | _ => none
+
 def parseRcpt (s : String) : Option (Nat × Nat) :=
   match s.splitOn ":" with
   | [i, b] => do
@@ -165,33 +183,117 @@ def showObs (m : Mode) (cfg : Cfg) (nChecks : Nat) (ob : Obs) : String :=
   s!"start={startS} rcpt={rcptS} body={bodyS} st={stS} q={b01 ob.final.metaQ} del={delS} log=" ++
     showLog nChecks keep ob.final.cr.done
 
+/-- One pipeline's tokens → configuration, number of checks, recipient table, completion order. -/
+def parseCfg (dm g s blocks scripts delays rcpts : String) (ts : List Tgt) (q0 : Bool) :
+    Option (Cfg × Nat × List (Nat × Nat) × Ord × List Script) := do
+  let dm ← dmarc? dm
+  let g ← ids? g
+  let s ← ids? s
+  let bs ← (blocks.splitOn ";").mapM parseBlock
+  let rs ← (rcpts.splitOn ",").mapM parseRcpt
+  let ss ← (scripts.splitOn ";").mapM parseScript
+  let ds ← (delays.splitOn ";").mapM parseDelay
+  if ds.length != ss.length then none else
+  let cfg : Cfg := {
+    v := verdictsOf ss
+    global := g
+    source := s
+    block := fun b => (bs[b]?).getD ⟨[], []⟩
+    route := fun r => match rs.find? (fun p => p.1 == r) with
+      | some p => p.2
+      | none => 0
+    tgt := fun t => (ts[t]?).getD ⟨false, false⟩
+    dmarc := dm
+    q0 := q0 }
+  pure (cfg, ss.length, rs, ordOf ds, ss)
+
+def scriptRejects (s : Script) : Bool :=
+  s.conn == .rej || s.sender == .rej || s.body == .rej || s.rcpt.any (fun p => p.2 == .rej)
+
+/-- The nested transaction (see the header). -/
+def showNest (m : Mode) (cfgO : Cfg) (nO : Nat) (ordO : Ord) (rsO : List Rcpt) (isNest : TgtId → Bool)
+    (cfgI : Cfg) (nI : Nat) (ordI : Ord) : String :=
+  let obO := run ordO cfgO m rsO
+  let accO := (obO.rcpts.filter (fun x => !x.2)).map (fun x => x.1)
+  -- every accepted RCPT of a block that lists the nested pipeline is one AddRcpt on it
+  let rsI := accO.filter (fun r => (cfgO.block (cfgO.route r)).targets.any isNest)
+  let passed := match obO.body with
+    | some b => b.refused.isNone
+    | none => false
+  let innerRan := passed && !rsI.isEmpty
+  let cfgI' : Cfg := { cfgI with q0 := obO.final.metaQ }
+  let obI : Obs :=
+    if innerRan then run ordI cfgI' m rsI
+    else
+      -- Start and the AddRcpt calls only: the outer pipeline refused DATA (or never got there)
+      let s := start ordI cfgI'
+      if s.2 then ⟨true, [], none, s.1⟩ else
+      let a := addAll ordI cfgI' s.1 rsI
+      ⟨false, a.2, none, a.1⟩
+  let innerAccepts := match obI.body with
+    | some b => b.results.all (fun x => x.2.2)
+    | none => true
+  let startS := if obO.startRefused then "r" else "o"
+  let rcptS := ",".intercalate (obO.rcpts.map (fun p => s!"{p.1}:" ++ (if p.2 then "r" else "o")))
+  let bodyS := match obO.body with
+    | none => "none"
+    | some b => match b.refused with
+      | some .check => "chk"
+      | some .dmarc => "dmarc"
+      | none => if m == Mode.smtp && innerRan && !innerAccepts then "tgt" else "ok"
+  let acc := sortNat (dedupNat accO)
+  let dlI := delivered m obI
+  let served (r : Rcpt) : Bool :=
+    match m with
+    | .smtp => bodyS == "ok"
+    | .lmtp => passed && (!rsI.contains r || dlI.contains r)
+  let stS := ",".intercalate (acc.map (fun r => s!"{r}:" ++ (if served r then "o" else "f")))
+  -- the outer pipeline's own targets never refuse: over SMTP they count when the whole message was
+  -- accepted, over LMTP whenever DATA got past the checks (the flag they saw is not compared: a
+  -- quarantine of the inner pipeline's own checks may come before or after, map order)
+  let direct : List (TgtId × List Rcpt × Bool) := match obO.body with
+    | some b => if passed && (m == Mode.lmtp || bodyS == "ok") then b.results.filter (fun x => !isNest x.1) else []
+    | none => []
+  let delS := ";".intercalate ((direct.foldr insTgt []).map (fun (x : TgtId × List Rcpt × Bool) =>
+    s!"{x.1}:" ++ "+".intercalate ((sortNat x.2.1).map toString)))
+  let refusedByCheck := match obO.body with
+    | some b => b.refused == some .check
+    | none => false
+  let keep : CheckId → Bool := fun c => !refusedByCheck || cfgO.global.contains c || cfgO.source.contains c
+  let finalQ := if innerRan then obI.final.metaQ else obO.final.metaQ
+  let innerS := if rsI.isEmpty then "-" else showObs m cfgI' nI obI
+  s!"start={startS} rcpt={rcptS} body={bodyS} st={stS} q={b01 finalQ} del={delS} log=" ++
+    showLog nO keep obO.final.cr.done ++ " || in: " ++ innerS
+
 def showEff : Eff → String
   | .none => "none" | .quar => "quar" | .rej => "rej"
 
 def handle : List String → String
-  | ["run", mode, dm, g, s, blocks, tgts, rcpts, scripts, delays] =>
+  | "run" :: mode :: dm :: g :: s :: blocks :: tgts :: rcpts :: scripts :: delays :: flag =>
     let r : Option String := do
       let m ← if mode == "smtp" then some Mode.smtp else if mode == "lmtp" then some Mode.lmtp else none
-      let dm ← dmarc? dm
-      let g ← ids? g
-      let s ← ids? s
-      let bs ← (blocks.splitOn ";").mapM parseBlock
+      let q0 ← match flag with
+        | [] => some false
+        | ["Q"] => some true
+        | _ => none
       let ts ← (tgts.splitOn ",").mapM parseTgt
-      let rs ← (rcpts.splitOn ",").mapM parseRcpt
-      let ss ← (scripts.splitOn ";").mapM parseScript
-      let ds ← (delays.splitOn ";").mapM parseDelay
-      if ds.length != ss.length then none else
-      let cfg : Cfg := {
-        v := verdictsOf ss
-        global := g
-        source := s
-        block := fun b => (bs[b]?).getD ⟨[], []⟩
-        route := fun r => match rs.find? (fun p => p.1 == r) with
-          | some p => p.2
-          | none => 0
-        tgt := fun t => (ts[t]?).getD ⟨false, false⟩
-        dmarc := dm }
-      pure (showObs m cfg ss.length (run (ordOf ds) cfg m (rs.map (fun p => p.1))))
+      let (cfg, n, rs, ord, _) ← parseCfg dm g s blocks scripts delays rcpts ts q0
+      pure (showObs m cfg n (run ord cfg m (rs.map (fun p => p.1))))
+    r.getD "bad-op"
+  | ["nest", mode, dm, g, s, blocks, tgts, rcpts, scripts, delays, flag, "//",
+      dmI, gI, sI, blocksI, tgtsI, routesI, scriptsI, delaysI] =>
+    let r : Option String := do
+      let m ← if mode == "smtp" then some Mode.smtp else if mode == "lmtp" then some Mode.lmtp else none
+      let q0 ← if flag == "Q" then some true else if flag == "-" then some false else none
+      let tsN ← (tgts.splitOn ",").mapM parseTgtN
+      let (cfgO, nO, rsO, ordO, _) ← parseCfg dm g s blocks scripts delays rcpts (tsN.map (fun p => p.1)) q0
+      let tsI ← (tgtsI.splitOn ",").mapM parseTgt
+      let (cfgI, nI, _, ordI, ssI) ← parseCfg dmI gI sI blocksI scriptsI delaysI routesI tsI false
+      if cfgI.dmarc == .rej || ssI.any scriptRejects then none else
+      let isNest : TgtId → Bool := fun t => match tsN[t]? with
+        | some p => p.2
+        | none => false
+      pure (showNest m cfgO nO ordO (rsO.map (fun p => p.1)) isNest cfgI nI ordI)
     r.getD "bad-op"
   | ["remote", qr, qb, _path] =>
     if (qr != "0" && qr != "1") || (qb != "0" && qb != "1") then "bad-op" else
